@@ -51,6 +51,13 @@ CLAIMED = {
         "Tie to the code: translator + vm_compute correspondence against Multi_Range_Potential_Form and potable [Pair] definitions. The statement without the distinct-key hypothesis is refuted in Coq (known finding C08-dupkey).",
    note="Trusted: Coq kernel; tools/py2coq.py printing; floats abstracted by order-isomorphic integers (code only compares); stable-sort model of list.sort; harness generators. No axioms.",
    technique="Coq proof over translated (py2coq) decision procedures + vm_compute correspondence", ref="DESIGN.md section 4 C08"),
+ 'C10': dict(
+   text="Coq theorems over model/Spline.v with the 6x6 (Exp_Spline) and 10x10 (Buck4_Spline) systems translated entry by entry from the np.array literals: for EVERY solution of the system the exponential spline exp(P5(r))+C takes the value, first and second derivative of the two Spline_Points at detach and attach, "
+        "including when non-positive values are shifted (c10_exp_join); the buck4 spline's fifth-order piece matches the start potential at detach, is stationary at r_min, meets the third-order piece there with equal value, slope and curvature, which matches the end potential at attach (c10_buck4_join); "
+        "the splined potential equals its start potential (value, deriv, deriv2) for r <= detach and its end potential for r >= attach, and is twice differentiable at both joins and inside the region with deriv / deriv2 its true derivatives (c10_exp_c2, c10_buck4_c2, glue lemma over Coquelicot is_derive); as.buck4 and its documented spline() expansion are the same callable with the same system. "
+        "Tie: translator + exact-body assertions of the glue (Spline_Point, shift, region selection, factories, spline() modifier, buck4); per generated case the arguments numpy.linalg.solve received, the residual of the returned coefficients and value/deriv/deriv2 in all regions through the three routes are interval-certified against the model.",
+   note="Trusted: Coq kernel; numpy.linalg.solve modelled by its contract (theorems hold for every solution; the returned one is residual-checked per case); translator printing; Reals axioms + classic + funext; primitive axioms via interval in the correspondence only. Domain: end potentials well conditioned at the joins.",
+   technique="Coq proof over translated linear systems + callable model (Coquelicot) + interval-certified correspondence", ref="DESIGN.md section 4 C10"),
  'C11': dict(
    text="Coq theorems over _init_cutoff modelled in IEEE binary64 (Flocq BinarySingleNaN): for every k up to 2^40 and every real (hence decimal) step delta in the normal range, with cutoff and dr the floats nearest k*delta and delta, nr = round(cutoff/dr)+1 = k+1 (c11_rows: real-number core by relative-error bounds + interval, lifted through Bdiv_correct / Bnearbyint_correct / Btrunc_correct); "
         "the truncating expression before the repair is refuted (0.3/0.1 -> 3 rows); nr&dr -> cutoff=(nr-1)*dr, cutoff&nr kept, all three / a step alone / non-positive values -> configuration error, defaults. "
